@@ -101,6 +101,20 @@ def _case(draw):
                                  [4, 6, 8, 12, 12, 16, 24, 32]))
     ops = draw(st.lists(st.one_of(step, step, step, extra, extra, repeat),
                         min_size=n_ops, max_size=n_ops))
+    # Optional warm-up: the history starts with an `update` that was not
+    # preceded by a `query` on twin A (observed instances are committed
+    # without asking), while twin B may have answered an extra query first.
+    no_util_update = not (
+        name in ("StreamProbabilisticAL",
+                 "BalancedIncrementalQuantileFilter"))
+    if no_util_update and draw(st.integers(0, 3)) == 0:
+        warm = {"op": "update_only", "rows": draw(chunk(1 if cognitive
+                                                        else 3)),
+                "queried": draw(st.sampled_from(["none", "all", "first"]))}
+        if needs_train:
+            warm.update(draw(st.fixed_dictionaries(tr)))
+        head = [draw(extra)] if draw(st.booleans()) else []
+        ops = head + [warm] + ops
     case["ops"] = ops
     return case
 
@@ -301,6 +315,37 @@ def run_case(case):
         return True
 
     for i, op in enumerate(ops):
+        if op["op"] == "update_only":
+            n_rows = len(op["rows"])
+            q = ([] if op["queried"] == "none" else
+                 list(range(n_rows)) if op["queried"] == "all" else [0])
+            okA, eA = guarded(R.call_update, kind, name, A,
+                              world.chunk(op["rows"]), np.array(q, dtype=int),
+                              None)
+            okB, eB = guarded(R.call_update, kind, name, B,
+                              world.chunk(op["rows"]), np.array(q, dtype=int),
+                              None)
+            if not okA or not okB:
+                if okA == okB:
+                    # the component does not accept an update without a
+                    # preceding query: not a case of this property
+                    labels.append("update_only_rejected")
+                    return done()
+                viol.append(exc_violation(
+                    comp, eA if not okA else eB,
+                    "update_without_query_after_extra", f"op {i} update"))
+                return done()
+            a_init = True
+            ref = _state(A)
+            v = _state_violation(
+                comp, "state_differs_after_update", ref, _state(B),
+                "update_without_preceding_query",
+                f"op {i} after the stand-alone update")
+            if v is not None:
+                viol.append(v)
+                return done()
+            labels.append("update_without_preceding_query")
+            continue
         if op["op"] == "step":
             tkey = world.train_key(op)
             trig_first = (f"first_call_extra[{first_b_flavour}]"
